@@ -428,11 +428,12 @@ func (a *AliveDialerSet) SetSelectionPolicy(policy consts.DialerSelectionPolicy)
 
 func (a *AliveDialerSet) recomputeSelectionStateLocked() {
 	a.dialerToLatency = make(map[*Dialer]time.Duration, len(a.dialerToLatencyOffset))
-	a.minLatency = minLatency{
-		sortingLatency: time.Hour,
-	}
 
 	if !isMinLatencyPolicy(a.selectionPolicy) {
+
+		a.minLatency = minLatency{
+			sortingLatency: time.Hour,
+		}
 		return
 	}
 
